@@ -110,7 +110,7 @@ theorem fresh_disjoint_from_allocated (g : Geom) (m : Mem) (f o f2 o2 : Nat)
     reachable state is aligned, consists of frames that were all free (hence is disjoint from
     every block handed out and not yet freed — `fresh_disjoint_from_allocated`), is the target if
     one was given, and exactly its frames become allocated. -/
-theorem seq_get_fresh (c : Cfg) (ok : CfgOk c) (H : Nat → Prop) (m : Mem) (inv : UpperInv0 c H m) (frame : Option Nat)
+theorem seq_get_fresh (c : Cfg) (ok : CfgOk c) (H : Nat → Nat) (m : Mem) (inv : UpperInv0 c H m) (frame : Option Nat)
     (r : Request) (hcls : r.cls < 8) (hloc : r.locOk c) (hv : C08.ArgsValid c (frame.getD 0) r) :
     Runs m (get c frame r) (fun res m' => UpperInv0 c H m' ∧ ∀ f k, res = .ok (f, k) →
       f % 2 ^ r.order = 0 ∧ (∀ i, i < 2 ^ r.order → m.allocated c.geom (f + i) = false) ∧
